@@ -6,7 +6,7 @@
 (*   c = [p, a, b];  operand = [t |-> <<X, Y, Z>>]  (Jacobian triple; affine points have Z = 1,*)
 (*   the identity Z = 0);  out = [ok, inf, x, y] | [ok |-> FALSE, exc] | [ok, val] for "eq"   *)
 (*   op in {"add", "double", "neg", "eq", "affine", "mul" (k), "muladd" (ka, kb)}             *)
-EXTENDS CurveP, TLC, Json, IOUtils
+EXTENDS Jacobi, TLC, Json, IOUtils
 
 Trace == JsonDeserialize(IOEnv.TRACE_FILE)
 VARIABLE i
@@ -31,8 +31,17 @@ Bad(e) ==
            THEN {"non-canonical-coordinate"}
       ELSE {"wrong-point"}
 
+(* DRIFT (not a verdict on the property): the raw result triple differs from the design layer's formulas, *)
+(* i.e. the code's step structure is no longer the one transcribed in Jacobi.tla                          *)
+Drift(e) ==
+  IF e.op = "add" /\ e.out.ok /\ ~e.out.inf /\ e.raw # <<>> /\ e.A.t[3] # 0 /\ e.B.t[3] # 0
+     /\ e.raw # JAdd(e.c, e.A.t, e.B.t) THEN {"DRIFT-add-triple"}
+  ELSE IF e.op = "double" /\ e.out.ok /\ ~e.out.inf /\ e.raw # <<>>
+     /\ e.raw # JDbl(e.c, e.A.t[1], e.A.t[2], e.A.t[3]) THEN {"DRIFT-double-triple"}
+  ELSE {}
+
 Init == i = 1
 Next == /\ i <= Len(Trace)
         /\ i' = i + 1
-        /\ LET b == Bad(Trace[i]) IN b # {} => PrintT(<<"BAD", i, b>>)
+        /\ LET b == Bad(Trace[i]) \cup Drift(Trace[i]) IN b # {} => PrintT(<<"BAD", i, b>>)
 =============================================================================
